@@ -67,23 +67,37 @@ def build_failure_is_tie(txt: str) -> bool:
     return bool(files) and files <= set(GEN_FILES)
 
 
-def optional_obligation(repo: Path, lean: Path) -> dict:
+def _optional(repo: Path, lean: Path, file_name: str, gen, module: str, theorems: list[str], what: str) -> dict:
     """called under the build lock after the main build succeeded.  -> {"module", "theorems", "ok", "note"}"""
-    target = Path(lean) / "PyOak" / "Gen" / "KernelsXPath.lean"
-    res = {"module": XPATH_MODULE, "theorems": list(XPATH_THEOREMS), "ok": False, "note": ""}
+    target = Path(lean) / "PyOak" / "Gen" / file_name
+    res = {"module": module, "theorems": list(theorems), "ok": False, "note": ""}
     try:
-        text = py2lean_k.generate_xpath(Path(repo) / "src")
+        text = gen(Path(repo) / "src")
     except py2lean_k.Unsupported as e:
-        res["note"] = f"_match_node_xpath is outside the translated subset ({e.where}: {e.why})"
+        res["note"] = f"{what} is outside the translated subset ({e.where}: {e.why})"
         return res
     except (SyntaxError, OSError) as e:
         res["note"] = f"source not readable: {e}"
         return res
     if not target.exists() or target.read_text() != text:
         target.write_text(text)
-    p = subprocess.run(["lake", "build", XPATH_MODULE], cwd=lean, capture_output=True, text=True)
+    p = subprocess.run(["lake", "build", module], cwd=lean, capture_output=True, text=True)
     if p.returncode != 0:
-        res["note"] = "the bridge for the regenerated _match_node_xpath does not re-prove:\n" + (p.stdout + p.stderr)[-1500:]
+        res["note"] = f"the bridge for the regenerated {what} does not re-prove:\n" + (p.stdout + p.stderr)[-1500:]
         return res
     res["ok"] = True
     return res
+
+
+def optional_obligation(repo: Path, lean: Path) -> dict:
+    """C07: `_match_node_xpath`"""
+    return _optional(repo, lean, "KernelsXPath.lean", py2lean_k.generate_xpath, XPATH_MODULE, XPATH_THEOREMS, "_match_node_xpath")
+
+
+EQ_MODULE = "PyOak.Props.GenBridgeEq"
+EQ_THEOREMS = ["PyOak.GenBridge.zipOrigins_eq_gen", "PyOak.GenBridge.eqImpl_eq_gen"]
+
+
+def optional_eq(repo: Path, lean: Path) -> dict:
+    """C02: `_eq_fn`"""
+    return _optional(repo, lean, "KernelsEq.lean", py2lean_k.generate_eq, EQ_MODULE, EQ_THEOREMS, "_eq_fn")
